@@ -470,6 +470,9 @@ def wrap_num(z):
     return SymInt(z) if z3.is_int(z) else SymReal(z)
 
 
+STR_LEN_CAP = 5
+
+
 class SymStr(str):
     """str subclass so that `isinstance(x, str)` holds (pandera's object-dtype check); every operation that would
     look at the characters is overridden or raises ModelGap — the placeholder content must never be observed."""
@@ -523,7 +526,8 @@ class SymStr(str):
         return eng().branch(z3.Length(self.z) > 0)
 
     def __len__(self):
-        raise ModelGap("len(SymStr)")
+        # len() must be a python int: decide the length (one fork per possible value up to the cap; longer strings leave the model)
+        return eng().concretize_int(z3.Length(self.z), range(0, STR_LEN_CAP + 1))
 
     def __iter__(self):
         raise ModelGap("iter(SymStr)")
